@@ -89,7 +89,7 @@ def cases(draw):  # pylint: disable=too-many-locals,too-many-branches,too-many-s
     exit_ = draw(st.lists(st.sampled_from(EXIT_LINES), unique=True, max_size=3))
     cfg = {"ext": ext, "enter_script": wrap_script(draw, enter), "exit_script": wrap_script(draw, exit_),
            "g90e": draw(st.booleans()), "debug": draw(st.integers(0, 4)) == 0}
-    nreg = draw(st.integers(1, 2))
+    nreg = draw(st.integers(1, 3))
     regions = [draw(gen.region(k, False)) for k in range(nreg)]
     prog = [["g", "G28"], ["g", "G92 E0"], ["g", "G1 X1 Y1 Z0.2 F3000"]]
     e = 0.0
@@ -113,7 +113,15 @@ def cases(draw):  # pylint: disable=too-many-locals,too-many-branches,too-many-s
             for _k in range(draw(st.integers(2, 6))):
                 c = draw(st.sampled_from(codes + codes + POOL))
                 prog.append(["g", draw(instance(c))])
-            end = draw(st.sampled_from(["out", "out", "disable", "hook", "newprint", "stay"]))
+            end = draw(st.sampled_from(["out", "out", "disable", "hook", "newprint", "stay", "delete_then_out"]))
+            if end == "delete_then_out" and len(rnd.regions) > 1:
+                # the user deletes the region the tool is in; the episode goes on until the next move out
+                inside = [r for r in rnd.regions if geom.in_region(r, tx, ty)]
+                if inside:
+                    rnd.regions.remove(inside[0])
+                    prog.append(["unreg", inside[0]["id"]])
+                    prog.append(["g", draw(instance(draw(st.sampled_from(codes + POOL))))])
+                end = "out"
             if end == "out":
                 tx, ty = rnd.target("grid", 0, draw(st.integers(0, 4)), draw(st.integers(0, 4)))
                 prog.append(["g", "G1 X%s Y%s" % (gen.fmt(tx), gen.fmt(ty))])
